@@ -50,6 +50,7 @@ class ArbiterWorld(World):
 
     # ------------------------------------------------------------------------------------------
     def gen_config(self, rng, prop):
+        drng = rng.sub("dup")       # derived stream: leaves every other draw of the run unchanged
         dw = rng.choice([8, 16, 32, 64])
         g = rng.choice([x for x in (8, 16, 32, 64) if x <= dw])
         aw = rng.range(3, 8)
@@ -78,6 +79,14 @@ class ArbiterWorld(World):
                         f.append(o)
             intrs.append({"g": ig, "feats": sorted(f)})
         mode = rng.wchoice([("byz", 4), ("proto", 3), ("mixed", 3)])
+        if 2 <= n <= 8 and drng.chance(0.07):
+            # the same Interface object is added more than once (add() has no rule against it):
+            # that initiator holds several slots of the round-robin order
+            for _ in range(drng.range(1, 2)):
+                j = drng.range(1, n - 1)
+                k = drng.below(j)
+                if "same_as" not in intrs[k]:
+                    intrs[j] = dict(intrs[k], same_as=k)
         return {"aw": aw, "dw": dw, "g": g, "feats": sorted(feats), "intrs": intrs, "mode": mode,
                 "feats_as": rng.choice(["str", "str", "enum", "frozenset", "list", "tuple"]),
                 "mid_elab": rng.range(1, n) if (n > 1 and rng.chance(0.12)) else None,
@@ -152,6 +161,7 @@ class ArbiterWorld(World):
                                     key=f"feature-signal:{f_}")
         need_members(dut.bus, feats, "arbiter bus")
         intrs = []
+        built = {}
         mid = config.get("mid_elab")
         for i, ic in enumerate(config["intrs"]):
             if mid is not None and i == mid and i > 0:
@@ -159,8 +169,15 @@ class ArbiterWorld(World):
                 # still being populated; more initiators are added afterwards
                 hw.elaborate_once(dut)
                 stats.fault("elaborated_while_still_being_populated")
-            ib = hw.construct(wishbone.Interface, addr_width=aw, data_width=dw,
-                              granularity=ic["g"], features=spell(ic["feats"]), path=(f"i{i}",))
+            if ic.get("same_as") is not None and int(ic["same_as"]) in built:
+                # fault: an Interface object that is already an initiator is added once more
+                ib = built[int(ic["same_as"])]
+                ic = dict(config["intrs"][int(ic["same_as"])])
+                stats.fault("same_interface_added_again")
+            else:
+                ib = hw.construct(wishbone.Interface, addr_width=aw, data_width=dw,
+                                  granularity=ic["g"], features=spell(ic["feats"]), path=(f"i{i}",))
+            built[i] = ib
             need_members(ib, set(ic["feats"]), f"initiator {i}")
             if all(o in ic["feats"] for o in ("err", "rty") if o in feats):
                 hw.must_accept("C08" if "C08" in props else "C09",
@@ -214,6 +231,9 @@ class ArbiterWorld(World):
             hw.elaborate_once(d2)
             stats.fault("second_instance_in_process")
         n = len(intrs)
+        # slot -> first slot holding the same Interface object (itself unless added repeatedly)
+        base = [next(k for k in range(n) if intrs[k][0] is intrs[i][0]) for i in range(n)]
+        dup_mode = any(base[i] != i for i in range(n))
         if n == 0:
             from simkit.core import Refused
             raise Refused("no initiators")
@@ -230,7 +250,7 @@ class ArbiterWorld(World):
         bursts = [[] for _ in range(n)]
         for op in ops:
             if op.get("k") == "burst":
-                bursts[int(op.get("i", 0)) % n].append(op)
+                bursts[base[int(op.get("i", 0)) % n]].append(op)
         resps = [op for op in ops if op.get("k") == "resp"]
         proto_cap = 0 if config["mode"] == "byz" else 40 + 12 * sum(len(q) for q in bursts) + \
             sum(int(b_.get("gap") or 0) for q in bursts for b_ in q if int(b_.get("gap") or 0) >= 1000)
@@ -252,6 +272,7 @@ class ArbiterWorld(World):
         async def tb(ctx):
             p = hw.Pins(ctx)
             prev_owner = prev_busy = prev_req = None
+            poss = None      # dup_mode: slots the grant register may be in, given all observations
             # protocol agents' state
             ist = [{"q": list(bursts[i]), "phase": "idle", "think": None, "cur": None,
                     "left": 0, "gapleft": 0, "waited": 0} for i in range(n)]
@@ -273,7 +294,8 @@ class ArbiterWorld(World):
                     op = byz_ops[byz_i]
                     ivs = op.get("i") or []
                     for i in range(n):
-                        drv.append(norm_byz_vec(i, ivs[i] if i < len(ivs) else []))
+                        drv.append(norm_byz_vec(i, ivs[i] if i < len(ivs) else [])
+                                   if base[i] == i else drv[base[i]])
                     stats.fault("byzantine_cycle")
                 else:
                     for i in range(n):
@@ -290,6 +312,9 @@ class ArbiterWorld(World):
                                 s["think"] = None
                             else:
                                 s["think"] -= 1
+                        if base[i] != i:
+                            drv.append(drv[base[i]])
+                            continue
                         d = dict(cyc=0, stb=0, we=0, sel=0, adr=i, dat_w=i)
                         if "lock" in f:
                             d["lock"] = 0
@@ -392,6 +417,8 @@ class ArbiterWorld(World):
                             raise Violation("C08", "shared-bus-not-owners-request", t,
                                             f"bus.{k}={got:#x} but owner {owner} drives {v:#x}")
                     for i, (jb, jg, jf) in enumerate(intrs):
+                        if base[i] != i:
+                            continue
                         ga = p.get(jb.ack)
                         obs.append(ga)
                         stats.checks += 1
@@ -405,6 +432,13 @@ class ArbiterWorld(World):
                                                     f"owner {i} {o} differs from target")
                             if "stall" in jf:
                                 xs = tr["stall"] if "stall" in feats else 1 - tr["ack"]
+                                if p.get(jb.stall) == 1 and xs == 0 and base.count(i) > 1:
+                                    # F12: an interface held in several slots has its stall
+                                    # driven from the last slot's net only (own key, so every
+                                    # other stall discrepancy is still reported)
+                                    raise Violation("C08", "F12-owner-in-several-slots-stalled", t,
+                                                    f"slots {base}: owner {i} stall=1, target says 0",
+                                                    key="F12:interface-in-several-slots-stall-stuck")
                                 if p.get(jb.stall) != xs:
                                     raise Violation("C08", "owner-stall-wrong", t,
                                                     f"owner {i} stall={p.get(jb.stall)} expected {xs}")
@@ -418,6 +452,8 @@ class ArbiterWorld(World):
                                                     f"initiator {i} sees {o}")
                             if "stall" in jf and p.get(jb.stall) != 1:
                                 raise Violation("C08", "non-owner-not-stalled", t, f"initiator {i}")
+                if dup_mode and (poss is None or prev_owner is None):
+                    poss = {s_ for s_ in range(n) if base[s_] == owner}
                 busy = bool(d["cyc"] and ((d.get("lock", 0) or d["stb"]) if "lock" in feats else 1))
                 req = [x["cyc"] for x in drv]
                 if prev_owner is not None:
@@ -434,7 +470,24 @@ class ArbiterWorld(World):
                             if prev_req[j]:
                                 nxt = j
                                 break
-                        if c09:
+                        if c09 and dup_mode:
+                            # the tag names the Interface object, not the slot: follow every slot
+                            # the grant register can be in and ask each for its successor
+                            def succ(s_):
+                                for k in range(1, n):
+                                    if prev_req[(s_ + k) % n]:
+                                        return (s_ + k) % n
+                                return s_
+                            stats.checks += 1
+                            new = {succ(s_) for s_ in poss} & \
+                                {s_ for s_ in range(n) if base[s_] == owner}
+                            if not new:
+                                raise Violation("C09", "not-round-robin-successor", t,
+                                                f"slots {base} (same number = same interface), grant "
+                                                f"in {sorted(poss)}, requests {prev_req}: next owner "
+                                                f"{owner} is the successor of none of them")
+                            poss = new
+                        elif c09:
                             stats.checks += 1
                             if owner != nxt:
                                 cls = "moved-without-request" if nxt == prev_owner else \
@@ -457,6 +510,8 @@ class ArbiterWorld(World):
                 # ---- bounded liveness (protocol phase only) ---------------------------------
                 if c09 and not in_byz:
                     for i in range(n):
+                        if base[i] != i:
+                            continue
                         if req[i] and owner != i:
                             if waiting[i] is None:
                                 waiting[i] = {"since": t, "others": 0, "last": owner}
@@ -552,7 +607,17 @@ class ArbiterWorld(World):
         intrs = config["intrs"]
         if len(intrs) > 1:
             for j in range(len(intrs) - 1, -1, -1):
-                c = dict(config, intrs=intrs[:j] + intrs[j + 1:])
+                rest = []
+                for ic in intrs[:j] + intrs[j + 1:]:
+                    sa = ic.get("same_as")
+                    if sa is not None:
+                        ic = dict(ic)
+                        if sa == j:
+                            del ic["same_as"]
+                        elif sa > j:
+                            ic["same_as"] = sa - 1
+                    rest.append(ic)
+                c = dict(config, intrs=rest)
                 o = []
                 for op in ops:
                     if op.get("k") == "byz":
